@@ -291,6 +291,15 @@ def defaultText (line : Str) : Option Str :=
   | none => none
   | some (_, e) => some (stripChars (takeDefault 0 (line.drop e)) [' ', '\t', '`'])
 
+/-- is the decimal text `[-+]?D+.D+` what `repr(float(text))` prints (up to a leading `+`)?  No leading zeros, no trailing
+    zeros, at most 15 significant digits, and a magnitude `repr` prints without an exponent. -/
+def floatCanonical (d : Str) : Bool :=
+  let body := if d.head? == some '-' || d.head? == some '+' then d.drop 1 else d
+  let a := body.takeWhile isAsciiDigit
+  let f := body.drop (a.length + 1)
+  (a == ['0'] || a.head? != some '0') && (f == ['0'] || f.getLast? != some '0') &&
+  a.length + f.length ≤ 15 && !(a == ['0'] && startsWith f ['0', '0', '0', '0'])
+
 def extractDefaultG (line : Str) (typ : Option Str) (edd : Bool) : R (Str × Option Default) :=
   if line.any (fun c => c.toNat > 127) then .outside "non-ASCII description"
   else
@@ -298,8 +307,8 @@ def extractDefaultG (line : Str) (typ : Option Str) (edd : Bool) : R (Str × Opt
       | none => false
       | some d =>
         let d' := strip d
-        infNanLike d' || (d' != d && d'.any isAsciiDigit)
-    if risky then .outside "float() of padded or inf/nan text"
+        infNanLike d' || (d' != d && d'.any isAsciiDigit) || (isFloatText d && !floatCanonical d)
+    if risky then .outside "float() of padded, inf/nan or non-canonical decimal text"
     else ofOut (extractDefault line typ edd)
 
 /-! ### `needs_quoting` — an `ast.parse`; modelled on a small grammar of type expressions -/
